@@ -7,24 +7,30 @@
   definition, so "checker ⇔ predicate" is definitional; the driver runs exactly `C03.verdict` on implementation
   traces.  Statements only (lemmas in `Proofs/C03Effect.lean`, `Proofs/C03Pass.lean`).
 
+  The model follows the REPAIRED code (fix: commits bcc5ea7, 2725aeb, 4e63890, 09ede92, 603ad02 in /repo).
   What holds, for ALL state definitions, transition placements, condition valuations and configurations:
-    * P4 (effect) for every transition declared on the machine: `C03_P4_exits`, `C03_P4_enters`;
-    * P1 (precedence) — and the first half of P2 (the source was active when the event began) — for machines all of
-      whose transitions are declared on the machine: `C03_P1_global_only`;
-    * the outcome of an event nobody declares, while the state value is a plain list: `C03_P5_unhandled_flat`.
-  What is false on the pinned tree (full statement `C03_full` kept visible, each refuted by `decide` on a concrete
-  machine whose run is replayed on the real classes by the harness — corpus/C03):
-    * P1/P3: an event declared inside a state with two active children is dispatched once per child
-      (`C03_counterexample_redispatch`);
-    * P2: a pending transition of the same event fires from a source that an earlier one exited
-      (`C03_counterexample_stale_source`) or exited and re-entered (`C03_counterexample_reentered_source`);
-    * P3: a transition executed in a child scope suppresses the machine-level candidates of sibling regions
+    * P4 (effect) for every transition, declared on the machine or inside a state definition: `C03_P4_exits`,
+      `C03_P4_enters` (scope-relative destination `dest`, global destination `sc.pre ++ dest`);
+    * for machines all of whose transitions are declared on the machine — one `trigger_nested` pass —:
+      P1 (precedence) `C03_P1`, P2 both halves `C03_P2` (the source was active when the event began and has not been
+      exited since), P3 for the pass `C03_P3_pass`, `C03_P3_complete_pass`, P5 `C03_P5` (True iff some transition executed;
+      else False if somebody was offered; else what `_check_event_result` decides, `C03_P5_unhandled_flat` on the flattened
+      state value);
+    * `C03_P5_pass_result`: what one pass returns, for any scope.
+  What is still false (full statement `C03_full` kept visible, each class refuted by `decide` on a concrete machine that
+  the harness replays on the real classes — corpus/C03): events declared inside state definitions are dispatched in
+  SEPARATE PASSES PER SCOPE (innermost scope first, each pass with its own `done` set, an outer scope skipped entirely
+  once an inner one executed):
+    * P3 completeness: a transition executed in a child scope suppresses the machine-level candidates of sibling regions
       (`C03_counterexample_suppressed_region`);
-    * P4: a transition declared inside a state exits and re-enters its relative root, because the relative
-      destination is looked up in the global tree (`C03_counterexample_local_effect`);
-    * P5: a later region whose candidates are all blocked overwrites the result of an executed transition
-      (`C03_counterexample_result_overwritten`); an unhandled event in a parallel-in-parallel configuration raises
-      ValueError instead of MachineError (`C03_counterexample_nested_lists`).
+    * P1 / P3: a state executes in the pass of an outer scope although a descendant executed in an inner pass
+      (`C03_counterexample_related_passes`);
+    * P3 order: the inner scope's pass offers an ancestor before the outer pass offers its descendant
+      (`C03_counterexample_pass_order`);
+    * P2: the outer pass takes a fresh `resolve_order` and offers the event to a state that the inner pass entered
+      (`C03_counterexample_entered_during_event`).
+  The machines of the CLOSED findings (re-dispatch per region, result overwritten, stale / re-entered source, ValueError
+  on nested lists, local transitions exiting their relative root) are regression examples now: `C03_regression_*`.
 -/
 import Proofs.C03Effect
 import Proofs.C03Pass
@@ -33,26 +39,27 @@ import Proofs.C03Pass2
 namespace TM
 open C02 C03
 
-/-! ### P4: effect of a machine-level transition -/
+/-! ### P4: effect of a transition -/
 
-/-- **P4, exits**: a transition declared on the machine exits exactly the active states strictly below the deepest
-active proper ancestor of its destination — only those in the destination's branch when that ancestor has several
+/-- **P4, exits**: a transition declared in any scope `sc` (the machine, or a state definition reachable from it) with
+the scope-relative destination `dest` exits exactly the active states strictly below the deepest active proper ancestor
+of its global destination `sc.pre ++ dest` — only those in the destination's branch when that ancestor has several
 active children, never the ancestor itself (`C03.expectedExits`) -/
-theorem C03_P4_exits (cfg : NCfg) (hwf : cfg.states.WF = true)
+theorem C03_P4_exits (cfg : NCfg) (hwf : cfg.states.WF = true) (sc : Scope) (hsc : cfg.root.walkTo sc.pre = some sc)
     (conf : Forest) (hc : ConfOK cfg.states conf = true) (hlen : conf.len = 1)
-    (dest : SPath) (r : Resolved) (h : resolveTransition cfg.root cfg.root conf dest = .ok r)
+    (dest : SPath) (r : Resolved) (h : resolveTransition cfg.root sc conf dest = .ok r)
     (live : List SPath) (hnd : live.Nodup) (hl : ∀ p, p ∈ live ↔ p ∈ conf.nodes) :
-    sameSet (pathsOf r.exits) (expectedExits live dest) = true :=
-  C03_exits_global cfg hwf conf hc hlen dest r h live hnd hl
+    sameSet (pathsOf r.exits) (expectedExits live (sc.pre ++ dest)) = true :=
+  C03_exits_scoped cfg hwf sc hsc conf hc hlen dest r h live hnd hl
 
 /-- **P4, enters**: … and then enters exactly the rest of the destination path and the initial descendants of the
 destination (`C03.expectedEnters`); other regions are untouched (`C02_new_configuration`) -/
-theorem C03_P4_enters (cfg : NCfg) (hwf : cfg.states.WF = true)
+theorem C03_P4_enters (cfg : NCfg) (hwf : cfg.states.WF = true) (sc : Scope) (hsc : cfg.root.walkTo sc.pre = some sc)
     (conf : Forest) (hc : ConfOK cfg.states conf = true) (hlen : conf.len = 1)
-    (dest : SPath) (r : Resolved) (h : resolveTransition cfg.root cfg.root conf dest = .ok r)
+    (dest : SPath) (r : Resolved) (h : resolveTransition cfg.root sc conf dest = .ok r)
     (live : List SPath) (hnd : live.Nodup) (hl : ∀ p, p ∈ live ↔ p ∈ conf.nodes) :
-    sameSet (pathsOf r.enters) (expectedEnters cfg live dest) = true :=
-  C03_enters_global cfg hwf conf hc hlen dest r h live hnd hl
+    sameSet (pathsOf r.enters) (expectedEnters cfg live (sc.pre ++ dest)) = true :=
+  C03_enters_scoped cfg hwf sc hsc conf hc hlen dest r h live hnd hl
 
 /-! ### P1: precedence -/
 
@@ -85,7 +92,7 @@ theorem C03_P1 (cfg : NCfg) (sub : NSub) (sc : Script) (hR : NoRaise sc) (hC : N
 theorem C03_dispatch_global_only (cfg : NCfg) (sub : NSub) (sc : Script) (x : Ctx) (ev : Nat)
     (hno : cfg.states.noEvents = true) (k : Nat) (v : Forest) (hc : ConfOK cfg.states (.cons k v .nil) = true)
     (s : NSt) :
-    ten sub sc cfg x ev cfg.root (.cons k v .nil) [] s =
+    ten sub sc cfg x ev cfg.root (.cons k v .nil) [] false s =
       (match alookup ev cfg.events with
        | none => .ok [] s
        | some ts => (triggerNested sub sc cfg cfg.root x ev ts s).bind fun tmp s2 =>
@@ -107,59 +114,62 @@ theorem C03_P3_pass (cfg : NCfg) (sub : NSub) (sc : Script) (hR : NoRaise sc) (h
   tnLoop_p3 cfg sub sc hR hC scope x ev ts ps done s s' hord hnd h
 
 /-- **completeness of a pass**: every listed state with candidates that is not in the initial `done` set is offered,
-unless a transition of that state or of a descendant executed -/
+unless a transition of that state or of a descendant executed, or the state was exited during the event -/
 theorem C03_P3_complete_pass (cfg : NCfg) (sub : NSub) (sc : Script) (hR : NoRaise sc) (hC : NoCmds sc)
-    (scope : Scope) (x : Ctx) (ev : Nat) (ts : List NTrans) (ps done : List SPath) (s s' : NSt)
-    (h : tnLoop sub sc cfg scope x ev ts ps done s = .ok () s') :
+    (scope : Scope) (x : Ctx) (ev : Nat) (ts : List NTrans) (ps done done' : List SPath) (s s' : NSt)
+    (h : tnLoop sub sc cfg scope x ev ts ps done s = .ok done' s') :
     ∃ seg, s'.glog = s.glog ++ seg ∧
       ∀ p ∈ ps, p ∉ done → (ncandidates scope.pre ev ts p).isEmpty = false →
-        (∃ o ∈ sOffers ts seg [], o.src = p) ∨ (∃ o ∈ sOffers ts seg [], o.executed = true ∧ isPrefix p o.src = true) :=
-  tnLoop_complete cfg sub sc hR hC scope x ev ts ps done s s' h
+        (∃ o ∈ sOffers ts seg [], o.src = p) ∨ (∃ o ∈ sOffers ts seg [], o.executed = true ∧ isPrefix p o.src = true)
+        ∨ (scope.pre ++ p) ∈ s'.exited :=
+  tnLoop_complete cfg sub sc hR hC scope x ev ts ps done done' s s' h
 
-/-- **what a pass returns** (P5): the outcome of the LAST offered state, not "some transition executed" — the
-two agree exactly when no state is offered and blocked after an execution (`C03_counterexample_result_overwritten`) -/
+/-- **what `trigger_nested` returns** (any scope): True iff some transition of this call executed; otherwise False if
+some state was offered, and the old value if nobody was -/
 theorem C03_P5_pass_result (cfg : NCfg) (sub : NSub) (sc : Script) (hR : NoRaise sc) (hC : NoCmds sc)
-    (scope : Scope) (x : Ctx) (ev : Nat) (ts : List NTrans) (ps done : List SPath) (s s' : NSt)
-    (h : tnLoop sub sc cfg scope x ev ts ps done s = .ok () s') :
+    (scope : Scope) (x : Ctx) (ev : Nat) (ts : List NTrans) (s s' : NSt) (tmp : Option Bool)
+    (h : triggerNested sub sc cfg scope x ev ts s = .ok tmp s') :
     ∃ seg, s'.glog = s.glog ++ seg ∧
-      s'.result = (match (sOffers ts seg []).getLast? with
-        | some o => some o.executed
-        | none => s.result) :=
-  tnLoop_result cfg sub sc hR hC scope x ev ts ps done s s' h
+      tmp = (if (sOffers ts seg []).any (·.executed) then some true
+             else match (sOffers ts seg []).getLast? with
+               | some _ => some false
+               | none => s.result) :=
+  triggerNested_result cfg sub sc hR hC scope x ev ts s s' tmp h
 
-/-- **P2, first half, for machine-level declarations**: every transition executes from a state that was active when
-the event began (the second half — "and has not been exited since" — is false: `C03_counterexample_stale_source`) -/
-theorem C03_P2_source_was_active (cfg : NCfg) (sub : NSub) (sc : Script) (hR : NoRaise sc) (hC : NoCmds sc)
-    (hq : cfg.queued = false) (hno : cfg.states.noEvents = true)
+/-- **P2 for machine-level declarations, both halves**: every transition executes from a state that was active when
+the event began (`∈ s.conf.nodes`) and has not been exited since (`execFresh`: its source is not among the states
+exited earlier in the event's segment) -/
+theorem C03_P2 (cfg : NCfg) (hwf : cfg.states.WF = true) (sub : NSub) (sc : Script)
+    (hR : NoRaise sc) (hC : NoCmds sc) (hq : cfg.queued = false) (hno : cfg.states.noEvents = true)
     (qmax ev : Nat) (s s' : NSt) (hlen : s.conf.len = 1) (hcok : ConfOK cfg.states s.conf = true) (hidle : s.queue = [])
     (h : (napiTrigger sub sc cfg qmax ev s).state? = some s') :
     ∃ seg, s'.glog = s.glog ++ seg ∧
-      ∀ p ∈ execSources ((alookup ev cfg.events).getD []) seg, p ∈ s.conf.nodes :=
-  C03_P2_active_at_start cfg sub sc hR hC hq hno qmax ev s s' hlen hcok hidle h
+      (∀ p ∈ execSources ((alookup ev cfg.events).getD []) seg, p ∈ s.conf.nodes) ∧
+      execFresh ((alookup ev cfg.events).getD []) seg [] = true :=
+  C03_P2_global_only cfg hwf sub sc hR hC hq hno qmax ev s s' hlen hcok hidle h
 
-/-- **P5 for machine-level declarations, end to end** (unqueued machine, no on_exception handlers): if the event
-was offered to some state the trigger returns whether the LAST offered state executed a transition — "True iff
-some transition executed" holds exactly when no state is offered and blocked after an execution —; if it was offered
-to nobody the outcome is what `_check_event_result` decides from the (unchanged) state value (`C03_P5_unhandled_flat`) -/
+/-- **P5 for machine-level declarations, end to end** (unqueued machine, no on_exception handlers): the trigger
+returns True iff some transition executed, False if the event was offered to some state and none executed; if it was
+offered to nobody the outcome is what `_check_event_result` decides from the (unchanged, flattened) state value -/
 theorem C03_P5 (cfg : NCfg) (sub : NSub) (sc : Script) (hR : NoRaise sc) (hC : NoCmds sc)
     (hq : cfg.queued = false) (hno : cfg.states.noEvents = true) (hex : cfg.onException = [])
     (qmax ev : Nat) (s : NSt) (hlen : s.conf.len = 1) (hcok : ConfOK cfg.states s.conf = true) (hidle : s.queue = []) :
     (∀ b s', napiTrigger sub sc cfg qmax ev s = .ok b s' →
       ∃ seg, s'.glog = s.glog ++ seg ∧
-        (match (sOffers ((alookup ev cfg.events).getD []) seg []).getLast? with
-          | some o => b = o.executed
-          | none => cerLoop cfg ev (buildStateList [] s.conf).listify = .ok b ∧ s'.conf = s.conf)) ∧
+        (if (sOffers ((alookup ev cfg.events).getD []) seg []) = [] then
+           cerLoop cfg ev (buildStateList [] s.conf).flat = .ok b ∧ s'.conf = s.conf
+         else b = (sOffers ((alookup ev cfg.events).getD []) seg []).any (·.executed))) ∧
     (∀ e s', napiTrigger sub sc cfg qmax ev s = .err e s' →
       ∃ seg, s'.glog = s.glog ++ seg ∧
         ((sOffers ((alookup ev cfg.events).getD []) seg []) = [] →
-          cerLoop cfg ev (buildStateList [] s.conf).listify = .err e ∧ s'.conf = s.conf)) :=
+          cerLoop cfg ev (buildStateList [] s.conf).flat = .err e ∧ s'.conf = s.conf)) :=
   C03_P5_global_only cfg sub sc hR hC hq hno hex qmax ev s hlen hcok hidle
 
 /-! ### P5: an event nobody handles -/
 
-/-- what `_check_event_result` decides for a state value that is a plain list of names: the first active state
-that does not ignore invalid triggers decides — MachineError if the machine knows the event, AttributeError
-otherwise; `False` when all of them ignore -/
+/-- what `_check_event_result` decides from the flattened names of the state value: the first active state that does
+not ignore invalid triggers decides — MachineError if the machine knows the event, AttributeError otherwise; `False`
+when all of them ignore (nested lists of parallel states inside parallel states included) -/
 def unhandledOutcome (cfg : NCfg) (ev : Nat) : List SPath → PR Bool
   | [] => .ok false
   | p :: ps =>
@@ -171,11 +181,11 @@ def unhandledOutcome (cfg : NCfg) (ev : Nat) : List SPath → PR Bool
       else unhandledOutcome cfg ev ps
 
 theorem C03_P5_unhandled_flat (cfg : NCfg) (ev : Nat) (ps : List SPath) :
-    cerLoop cfg ev (ps.map SVal.name) = unhandledOutcome cfg ev ps := by
+    cerLoop cfg ev ps = unhandledOutcome cfg ev ps := by
   induction ps with
   | nil => rfl
   | cons p ps ih =>
-    simp only [List.map_cons, cerLoop, unhandledOutcome]
+    simp only [cerLoop, unhandledOutcome]
     cases getState cfg.root cfg.root p with
     | none => rfl
     | some f =>
@@ -209,30 +219,30 @@ def c03Regions (pEvents aEvents : List (Nat × List NTrans)) : SForest :=
 /-- an internal transition on `a`, declared inside `P`: executed twice (once per active child of `P`) -/
 def c03Redispatch : NCfg := { states := c03Regions [(0, [{ source := [2], dest := none }])] [], initial := [1] }
 
-theorem C03_counterexample_redispatch : c03Judge c03Redispatch =
-    some ["P1:same-transition-twice:local@local", "P3:offered-after-execution:local@local", "P3:order@local"] := by
-  decide
+/-- regression (closed, 603ad02): offered to the scope once -/
+theorem C03_regression_redispatch : c03Judge c03Redispatch = some [] := by decide
 
 /-- `P_a_a1 → P_a_a2` executes, `P_b_b1 → P_b_b2` is blocked by its condition (callback 100 returns False):
 the trigger returns False -/
 def c03Overwritten : NCfg :=
   { states := c03Regions [] [], initial := [1], events := [(0, [{ source := [1, 2, 3], dest := some [1, 2, 4] }, { source := [1, 5, 6], dest := some [1, 5, 7], conds := [⟨100, true⟩] }])] }
 
-theorem C03_counterexample_result_overwritten :
-    c03Judge c03Overwritten = some ["P5:false-after-execution:later-offer-blocked@global"] := by decide
+/-- regression (closed, 2725aeb): the trigger returns True -/
+theorem C03_regression_result_overwritten : c03Judge c03Overwritten = some [] := by decide
 
 /-- `P_a_a1 → Q` leaves `P`; `P_b_b1 → P_b_b2` fires nevertheless -/
 def c03Stale : NCfg :=
   { states := c03Regions [] [], initial := [1], events := [(0, [{ source := [1, 2, 3], dest := some [8] }, { source := [1, 5, 6], dest := some [1, 5, 7] }])] }
 
-theorem C03_counterexample_stale_source : c03Judge c03Stale = some ["P2:source-not-active@global"] := by decide
+/-- regression (closed, bcc5ea7): the exited state gets no turn -/
+theorem C03_regression_stale_source : c03Judge c03Stale = some [] := by decide
 
 /-- `P_a_a1 → P` exits and re-enters both regions; `P_b_b1 → P_b_b2` fires from the re-entered `b1` -/
 def c03Reentered : NCfg :=
   { states := c03Regions [] [], initial := [1], events := [(0, [{ source := [1, 2, 3], dest := some [1] }, { source := [1, 5, 6], dest := some [1, 5, 7] }])] }
 
-theorem C03_counterexample_reentered_source : c03Judge c03Reentered = some ["P2:source-re-entered@global"] := by
-  decide
+/-- regression (closed, bcc5ea7) -/
+theorem C03_regression_reentered_source : c03Judge c03Reentered = some [] := by decide
 
 /-- `P`(1) parallel [`a`(2) parallel [`x`(3), `y`(4)], `b`(5)], `Q`(6); event 0 only from `Q`: in `P` nobody
 handles it, the state value is `[[P_a_x, P_a_y], P_b]` and `_check_event_result` raises ValueError -/
@@ -243,8 +253,8 @@ def c03NestedLists : NCfg :=
       (.cons (c03Leaf 6) .nil .nil),
     events := [(0, [{ source := [6], dest := some [1] }])], initial := [1] }
 
-theorem C03_counterexample_nested_lists :
-    c03Judge c03NestedLists = some ["P5:error-kind:nested-state-lists@global"] := by decide
+/-- regression (closed, 4e63890): MachineError -/
+theorem C03_regression_nested_lists : c03Judge c03NestedLists = some [] := by decide
 
 /-- `P`(1) ⊃ `a`(2) ⊃ `x`(3), `y`(4); `b`(5): `a_x → a_y` declared inside `P` exits and re-enters `a` -/
 def c03LocalEffect : NCfg :=
@@ -253,20 +263,56 @@ def c03LocalEffect : NCfg :=
         (.cons (c03Leaf 5) .nil .nil)) .nil,
     initial := [1] }
 
-theorem C03_counterexample_local_effect : c03Judge c03LocalEffect = some ["P4:local@local"] := by decide
+/-- regression (closed, 09ede92): only `a_x` is exited -/
+theorem C03_regression_local_effect : c03Judge c03LocalEffect = some [] := by decide
 
 /-- `a1 → a2` declared inside `a` executes; the machine-level `P_b_b1 → P_b_b2` is then never offered -/
 def c03Suppressed : NCfg :=
   { states := c03Regions [] [(0, [{ source := [3], dest := some [4] }])], initial := [1],
     events := [(0, [{ source := [1, 5, 6], dest := some [1, 5, 7] }])] }
 
-theorem C03_counterexample_suppressed_region : c03Judge c03Suppressed = some ["P3:not-offered@local"] := by decide
+theorem C03_counterexample_suppressed_region :
+    c03Judge c03Suppressed = some ["P3:not-offered:after-execution@local"] := by decide
 
-example : c03Stale.states.WF = true := by decide
+/-- `Q`(0); `P`(1) ⊃ `a`(2) ⊃ `x`(3).  `P` declares `a → a` (blocked: callback 100 returns False), the machine declares
+`P_a_x → Q`: the pass of scope `P` offers the ancestor `a` before the machine's pass offers its descendant `x` -/
+def c03PassOrder : NCfg :=
+  { states := .cons (c03Leaf 0) .nil
+      (.cons { name := 1, initial := [2], events := [(0, [{ source := [2], dest := some [2], conds := [⟨100, true⟩] }])] }
+        (.cons { name := 2, initial := [3] } (.cons (c03Leaf 3) .nil .nil) .nil) .nil),
+    events := [(0, [{ source := [1, 2, 3], dest := some [0] }])], initial := [1] }
+
+theorem C03_counterexample_pass_order : c03Judge c03PassOrder = some ["P3:order@local"] := by decide
+
+/-- `P`(1) parallel [`a`(2) ⊃ `x`(4); `b`(5)].  `a` declares an internal transition on `x`, `P` declares `a → a`: `x`'s
+executes in the pass of scope `a`; the pass of scope `P` (reached through the region `b`) executes `a → a` although a
+descendant of `a` already executed -/
+def c03RelatedPasses : NCfg :=
+  { states := .cons { name := 1, initial := [2, 5], events := [(0, [{ source := [2], dest := some [2] }])] }
+      (.cons { name := 2, initial := [4], events := [(0, [{ source := [4], dest := none }])] } (.cons (c03Leaf 4) .nil .nil)
+        (.cons (c03Leaf 5) .nil .nil)) .nil,
+    initial := [1] }
+
+theorem C03_counterexample_related_passes : c03Judge c03RelatedPasses =
+    some ["P1:related-sources:local@local", "P3:offered-after-execution:local@local"] := by decide
+
+/-- `P`(1) parallel [`a`(2) ⊃ `x`(3), `y`(4); `b`(5)].  `a` declares `x → y`, `P` declares `a_y → a_x`: the pass of `P`
+offers the event to `a_y`, which the pass of `a` entered a moment before -/
+def c03EnteredDuringEvent : NCfg :=
+  { states := .cons { name := 1, initial := [2, 5], events := [(0, [{ source := [2, 4], dest := some [2, 3] }])] }
+      (.cons { name := 2, initial := [3], events := [(0, [{ source := [3], dest := some [4] }])] }
+        (.cons (c03Leaf 3) .nil (.cons (c03Leaf 4) .nil .nil))
+        (.cons (c03Leaf 5) .nil .nil)) .nil,
+    initial := [1] }
+
+theorem C03_counterexample_entered_during_event :
+    c03Judge c03EnteredDuringEvent = some ["P2:source-entered-during-event@local"] := by decide
+
+example : c03Suppressed.states.WF = true := by decide
 
 theorem C03_full_counterexample : ¬ C03_full := by
   intro h
-  have := h c03Stale (by decide) _ C03_counterexample_stale_source
+  have := h c03Suppressed (by decide) _ C03_counterexample_suppressed_region
   cases this
 
 /-! ### non-vacuity: events that the monitor accepts -/
